@@ -371,6 +371,12 @@ def sampler_edits(ms, loc, g, out):
         victim = rng.choice(used)
         out.append(Edit(f"{base}/payload/samples", (lambda root, victim=victim: nav(root, loc).samples.__setitem__(victim, None)),
                         {i: s for i, s in pl["samples"].items() if i != victim}, cls="sampler-slot-emptied"))
+        # the two ends of the slot table
+        for end_slot in (127, 0):
+            if end_slot not in pl["samples"]:
+                src_e = rng.choice(used)
+                out.append(Edit(f"{base}/payload/samples/{end_slot}", (lambda root, src=src_e, dst=end_slot: nav(root, loc).samples.__setitem__(dst, nav(root, loc).samples[src])),
+                                pl["samples"][src_e], cls="sampler-slot-table-ends"))
         free2 = [i for i in range(128) if i not in pl["samples"]]
         if free2:
             src, dst = rng.choice(used), rng.choice(free2)
